@@ -31,7 +31,10 @@ type fakeListener struct {
 	spurious int // connections handed out after close (buggy-listener variant)
 	handed   int
 	tempErrs int // transient (Temporary) errors handed out before the next connection while open
+	closeErr bool // Close shuts the listener down but reports a (cleanup) error
 }
+
+var errInnerCleanup = errors.New("fake listener: cleanup failed")
 
 // tempErr is a transient accept error (ECONNABORTED-like).
 type tempErr struct{}
@@ -56,7 +59,14 @@ func (l *fakeListener) Accept() (net.Conn, error) {
 	l.handed++
 	return &fakeConn{}, nil
 }
-func (l *fakeListener) Close() error   { vsched.Yield(); l.closed = true; return nil }
+func (l *fakeListener) Close() error {
+	vsched.Yield()
+	l.closed = true
+	if l.closeErr {
+		return errInnerCleanup
+	}
+	return nil
+}
 func (l *fakeListener) Addr() net.Addr { return nil }
 
 type mon struct {
@@ -154,6 +164,8 @@ func programs(thorough bool) []vsched.Program {
 		lateAcceptor        bool
 		tempErrs            int
 		concClose           bool
+		holders             int  // threads that Accept and keep the connection open until the late Accept has returned
+		closeErr            bool // the inner listener's Close reports an error
 	}
 	cfgs := []cfg{
 		{n: 1, acceptors: 2, iters: 1},
@@ -167,6 +179,9 @@ func programs(thorough bool) []vsched.Program {
 		{n: 2, acceptors: 3, iters: 1, tempErrs: 1},
 		{n: 1, acceptors: 2, iters: 1, closer: true, tempErrs: 1},
 		{n: 1, acceptors: 2, iters: 1, concClose: true},
+		{n: 1, holders: 1, closer: true, lateAcceptor: true},
+		{n: 1, holders: 1, closer: true, lateAcceptor: true, closeErr: true},
+		{n: 1, acceptors: 1, iters: 1, closer: true, lateAcceptor: true, closeErr: true},
 	}
 	if thorough {
 		cfgs = append(cfgs,
@@ -178,6 +193,8 @@ func programs(thorough bool) []vsched.Program {
 			cfg{n: 1, acceptors: 2, iters: 2, tempErrs: 2},
 			cfg{n: 2, acceptors: 3, iters: 1, concClose: true},
 			cfg{n: 1, acceptors: 2, iters: 1, closer: true, concClose: true},
+			cfg{n: 2, holders: 2, closer: true, lateAcceptor: true, closeErr: true},
+			cfg{n: 2, holders: 1, acceptors: 1, iters: 1, closer: true, lateAcceptor: true, closeErr: true},
 		)
 	}
 	for _, k := range cfgs {
@@ -186,8 +203,16 @@ func programs(thorough bool) []vsched.Program {
 		if k.concClose {
 			name += "/concurrent-close"
 		}
+		if k.holders > 0 {
+			name += fmt.Sprintf("/holders=%d", k.holders)
+		}
+		if k.closeErr {
+			name += "/inner-close-error"
+		}
 		ps = append(ps, vsched.Program{Name: name, MaxSteps: 800, Body: func() func(vsched.Outcome) vsched.Verdict {
-			inner := &fakeListener{spurious: k.spurious, tempErrs: k.tempErrs}
+			inner := &fakeListener{spurious: k.spurious, tempErrs: k.tempErrs, closeErr: k.closeErr}
+			held := vsched.Make[struct{}](4)    // a holder has its connection
+			release := vsched.Make[struct{}](4) // holders may close now
 			ll := LimitListener(inner, k.n).(*limitListener)
 			m := &mon{n: k.n, ll: ll, innerBuggy: k.spurious > 0, concClose: k.concClose}
 			threads := 0
@@ -201,9 +226,38 @@ func programs(thorough bool) []vsched.Program {
 					m.done++
 				})
 			}
+			for h := 0; h < k.holders; h++ {
+				h := h
+				threads++
+				vsched.GoNamed(fmt.Sprintf("holder%d", h), func() {
+					c, err := ll.Accept()
+					if err != nil {
+						m.refused++
+						held.Send(struct{}{})
+						m.done++
+						return
+					}
+					m.accepted++
+					m.open++
+					if m.open > m.maxOpen {
+						m.maxOpen = m.open
+					}
+					if m.open > m.n {
+						m.failf("C58/limit-exceeded", "holder%d: %d accepted connections not yet closed with limit %d", h, m.open, m.n)
+					}
+					held.Send(struct{}{})
+					release.Recv()
+					m.open--
+					c.Close()
+					m.done++
+				})
+			}
 			if k.closer {
 				threads++
 				vsched.GoNamed("closer", func() {
+					for h := 0; h < k.holders; h++ {
+						held.Recv() // every slot a holder can get is taken before the listener is closed
+					}
 					ll.Close()
 					m.closedDone = true
 					if k.lateAcceptor {
@@ -211,6 +265,9 @@ func programs(thorough bool) []vsched.Program {
 						m.acceptCloseTwice("late")
 					}
 					ll.Close() // repeated Close must be harmless
+					for h := 0; h < k.holders; h++ {
+						release.Send(struct{}{})
+					}
 					m.done++
 				})
 			}
@@ -229,7 +286,7 @@ func programs(thorough bool) []vsched.Program {
 func TestVerif_C58(t *testing.T) {
 	vx.Run(t, "C58", func(c *vx.Ctx) {
 		bounds := vx.Pick(c, []int{2}, []int{3, -1})
-		c.Rule("every schedule with at most B preemptions (quick B=2; thorough: B=3, then unbounded, the largest completed bound per program is recorded) of acceptor/closer programs over the instrumented netutil.LimitListener (n in {1,2}; 1-3 acceptors each Accept -> Close -> Close, the two Closes either in sequence or concurrently from two threads; optional Listener.Close incl. repeated, a late Accept after Close returned, an inner listener that hands out a spurious connection after close, and an inner listener whose Accept fails with transient (Temporary) errors before delivering a connection, after which the acceptor retries); scheduling point before every channel operation/select/Once and inside the fake listener and connection; evaluations = complete executions")
+		c.Rule("every schedule with at most B preemptions (quick B=2; thorough: B=3, then unbounded, the largest completed bound per program is recorded) of acceptor/closer programs over the instrumented netutil.LimitListener (n in {1,2}; 1-3 acceptors each Accept -> Close -> Close, the two Closes either in sequence or concurrently from two threads; optional Listener.Close incl. repeated, also with an inner listener whose Close shuts down but reports an error, and with holder threads that keep every slot occupied until the late Accept has returned, a late Accept after Close returned, an inner listener that hands out a spurious connection after close, and an inner listener whose Accept fails with transient (Temporary) errors before delivering a connection, after which the acceptor retries); scheduling point before every channel operation/select/Once and inside the fake listener and connection; evaluations = complete executions")
 		c.Assume("in the variant whose inner listener hands out a spurious connection after its own Close (the situation listen.go comments on), 'Accept after Close returns an error' is not asserted — the wrapper cannot know better than its inner listener when select picks the free slot — only the limit, slot accounting and absence of blocking are")
 		c.Assume("a connection counts as closed from the moment its Close is called; synchronisation-operation granularity (L3); unsynchronised accesses are looked for separately: in the thorough tier the same programs run free-running in a -race build and a data race between two accesses in listen.go is reported (sampling)")
 		vsched.RunBounds(c, "sched", programs(!c.Quick()), bounds)
